@@ -6,6 +6,7 @@ import (
 	"fmt"
 	"io"
 	gofs "io/fs"
+	"math"
 	"sort"
 
 	"github.com/hack-pad/hackpadfs"
@@ -168,7 +169,11 @@ func c16Layers() []c16Layer {
 }
 
 func genPages(r *Rng, k int) []int {
-	switch r.Intn(8) {
+	switch r.Intn(10) {
+	case 8:
+		return []int{1, math.MaxInt, 1} // offset + count must not overflow
+	case 9:
+		return []int{2, math.MaxInt - 1, math.MaxInt}
 	case 0:
 		return []int{-1, 1, -1}
 	case 1:
@@ -399,6 +404,71 @@ func runC16(r *Rng, n int, replay string) {
 		emit(c)
 	}
 	_ = gofs.ModeDir
+	runC16Retry(r, n/8, n)
+}
+
+// runC16Retry: a page whose entries could not be loaded (one store call fails once) delivers nothing, so it must not
+// consume anything either: the caller reads on and still gets every child exactly once (key-value FS over a plain store).
+func runC16Retry(r *Rng, n, firstID int) {
+	for id := firstID; id < firstID+n; id++ {
+		k := r.Range(2, 12)
+		dir := []string{".", "d", "d/e"}[r.Intn(3)]
+		cs := genChildren(r, k)
+		fs, ps := newKVPlain()
+		populate(fs, dir, cs)
+		size := r.Range(1, 4)
+		failPage := r.Intn((k + size - 1) / size)
+		c := &Case{ID: id, Kind: "kvplain-retry", Trivial: true}
+		c.Cells = []string{"kvplain-retry"}
+		c.Text = []string{fmt.Sprintf("[kvplain] dir %q with %d children read in pages of %d; one store call fails during page %d, the caller reads on", dir, k, size, failPage)}
+		f, err := fs.Open(dir)
+		if err != nil {
+			panic(err)
+		}
+		seen := map[string]int{}
+		failed := 0
+		sticky := false
+		for pi := 0; pi < 4*k+8; pi++ {
+			if pi == failPage && failed == 0 {
+				// one of the look-ups of this page's children (the listing itself is loaded, and memoised by the
+				// handle, with the first page: a failure there is remembered and is not this stage's subject)
+				ps.failAt = ps.calls + r.Intn(size)
+				if pi == 0 {
+					ps.failAt++
+				}
+			}
+			page, err := hackpadfs.ReadDirFile(f, size)
+			ps.failAt = -1
+			c.Text = append(c.Text, fmt.Sprintf("  ReadDir(%d) -> %d entries, err=%v", size, len(page), err))
+			if err != nil && err != io.EOF {
+				failed++
+				if failed > 1 {
+					sticky = true // the handle remembers the failure: nothing to read on from
+					break
+				}
+				if len(page) != 0 {
+					c.fail(fmt.Sprintf("[kvplain] dir %q: a failing ReadDir(%d) also returned %d entries", dir, size, len(page)), "kvplain:retry:entries-with-error")
+				}
+				continue
+			}
+			for _, e := range page {
+				seen[e.Name()]++
+			}
+			if err == io.EOF {
+				break
+			}
+		}
+		_ = f.Close()
+		for nm, cnt := range seen {
+			if cnt > 1 {
+				c.fail(fmt.Sprintf("[kvplain] dir %q: child %q appeared %d times although one page had failed and was read again", dir, nm, cnt), "kvplain:retry:dup")
+			}
+		}
+		if !sticky && len(seen) != k {
+			c.fail(fmt.Sprintf("[kvplain] dir %q: %d of %d children delivered after a page failed once (%d failing calls): the failed page's entries were skipped", dir, len(seen), k, failed), "kvplain:retry:missing")
+		}
+		emit(c)
+	}
 }
 
 func bucket(k int) int {
